@@ -757,7 +757,10 @@ class Statics(Base):
             if not (np.all(np.isfinite(got)) and np.all(np.isfinite(want))):
                 ctx.skip('C07.helper/nonfinite')
                 return
-            sc = np.max(np.abs(want)) + scale_extra + 1e-300
+            # absolute floor: at (nearly) stress-free states the products are rounding noise of terms of the
+            # size of the modulus
+            mod_ = self.cfg['material'].get('elastic modulus', self.cfg['material'].get('equilibrium bulk modulus', 1.0))
+            sc = np.max(np.abs(want)) + scale_extra + 1e-3 * mod_
             ctx.require(got.shape == want.shape and np.max(np.abs(got - want)) <= 1e-9 * sc, 'C07', 'helper_vjp/' + name,
                         lambda: '%s: helper product differs from the transposed action of the dense Jacobian by %.3g (scale %.3g)'
                         % (name, np.max(np.abs(got - want)) if got.shape == want.shape else np.nan, sc), sig=sig)
